@@ -792,6 +792,7 @@ func (env *Env) evalCall(x *ECall) (*Val, error) {
 				case *types.Basic:
 					if u.Info()&types.IsString != 0 {
 						e.declFun("strlen", []string{"Str"}, "Int")
+						e.assert("(<= 0 (strlen " + v.L[0].T + "))")
 						return mathVal("(strlen "+v.L[0].T+")", "Int"), nil
 					}
 				}
